@@ -20,6 +20,8 @@ type SimSink struct {
 	// Gate, if set, is called on entry of every Write (before anything is recorded) and
 	// may park the caller; used by the actor scheduler.
 	Gate func(p []byte)
+	// After, if set, is called when a Write has appended its bytes (still inside Write).
+	After func(p []byte)
 
 	mu       sync.Mutex
 	buf      []byte
@@ -60,6 +62,9 @@ func (s *SimSink) Write(p []byte) (int, error) {
 		}
 	}
 	s.buf = append(s.buf, p[:n]...)
+	if s.After != nil {
+		s.After(p)
+	}
 	if s.Log != nil {
 		if err != nil {
 			s.Log.Addf("write %s %d/%d err", s.Name, n, len(p))
